@@ -6,7 +6,7 @@ from acverif.rl import (is_call, peel, peel_all, is_var, is_agg, is_const, self_
                         reachable_without, must_pass, line_of, decision_table, rewrite, expand_vars, atom, cmp_norm, eq_cond,
                         var_defs_terms, is_named_const, strip_convs, inline_closures, param_at, param_of_type, unwrapped,
                         enum_gates, arm_edges, other_edges, result_gates, value_roots, Eval, EvalPanic, Unsupported)
-from acverif.sym import (Sym, summarize, canon, cstr, TooManyPaths, enum_table, teval, row_holds, by_cstr, loop_rows, innermost_loop)
+from acverif.sym import (Sym, summarize, canon, cstr, TooManyPaths, enum_table, teval, row_holds, by_cstr, loop_rows, innermost_loop, strip_old)
 
 COMP = "nfa::noncontiguous::Compiler::<'a>::"
 
@@ -157,7 +157,7 @@ class FFT:
                         nl = c[1]
             if nl is None:
                 continue
-            owner = canon(nl[2][1])
+            owner = canon(strip_old(nl[2][1]))     # fill_failure_transitions never writes nfa.special (checked by R16.2's writers)
             link = ('f', ('dc', nl, 'Some'), '0')
             T = ('call', 'core::ops::Index::index', [('f', ('f', param_at(b, 1), 'nfa'), 'sparse'), link], None)
             so = cstr(owner)
@@ -280,7 +280,7 @@ def r02_2(cx):
             n2 += 1
             ID = cstr(('f', ('dc', pf[0], 'Some'), '0'))
             cm = [canon(c) for c in r.calls(r'NFA::copy_matches$')]
-            has = any(cstr(c[2][0]) == 'self.nfa' and cstr(c[2][1]) == 'self.nfa.special.start_unanchored_id' and cstr(c[2][2]) == ID for c in cm)
+            has = any(cstr(c[2][0]) == 'self.nfa' and cstr(strip_old(c[2][1])) == 'self.nfa.special.start_unanchored_id' and cstr(c[2][2]) == ID for c in cm)
             lm = r.cond(IS_LM)
             if lm is False and not has:
                 why = 'under standard semantics a dequeued state does not inherit the start state\'s matches'
